@@ -174,7 +174,13 @@ func c14Run(c *fw.Ctx, id string, cs c14Case, model []modelRow, opid string) {
 	defer cl.Close()
 	defer release()
 	var faulted, heldOpen, lostOpen int32
+	slowClose := cs.Scan.Seed%3 == 0 // the servers take their time to acknowledge close requests
 	cl.OnRequest = func(req *sim.Request) *sim.Reply {
+		if slowClose && req.Scan != nil && req.Scan.GetCloseScanner() && req.Scan.ScannerId != nil {
+			// (handled at once - the scanner is released - but acknowledged only when
+			// the case is over: Close and Next must not wait for it)
+			return &sim.Reply{HoldDefault: hold}
+		}
 		if req.Scan == nil || cl.ScanOpID(req) != opid || req.Scan.GetCloseScanner() && req.Scan.ScannerId != nil || req.Scan.GetRenew() {
 			return nil
 		}
